@@ -17,6 +17,7 @@ import (
 	_ "verifharness/fam/ranges"
 	_ "verifharness/fam/schema"
 	_ "verifharness/fam/text"
+	_ "verifharness/fam/types"
 )
 
 func main() {
